@@ -316,7 +316,9 @@ impl<'c> G<'c> {
 
     pub fn member(&mut self, method: bool, is_interface: bool) -> MemberRef {
         MemberRef {
-            owner: self.class_or_array(),
+            // JVMS 4.4.2: only a Methodref may name an array type (e.g. `[I.clone()`); a Fieldref or an
+            // InterfaceMethodref owner is a class or interface
+            owner: if method && !is_interface { self.class_or_array() } else { self.class_name() },
             name: self.ident(),
             desc: if method { self.method_desc() } else { self.field_desc() },
             is_interface,
@@ -631,7 +633,14 @@ pub fn gen_class(c: &mut dyn Choice, cfg: &GenCfg) -> Sem {
             n
         });
         if major >= 49 {
-            s.source_debug_extension = g.opt(8, |g| g.list(40, |g| g.below(256) as u8));
+            // JVMS 4.7.11: the debug extension is a modified UTF-8 string (no terminating zero byte)
+            s.source_debug_extension = g.opt(8, |g| {
+                let mut b = vec![];
+                for _ in 0..g.below(5) {
+                    b.extend_from_slice(g.text().as_bytes());
+                }
+                b
+            });
             s.enclosing_method = g.opt(10, |g| EnclosingMethod { class: g.class_name(), method: g.opt(60, |g| (g.ident(), g.method_desc())) });
         }
     }
